@@ -50,10 +50,11 @@ theorem isTopicAllowed_fn_eq (pattern : Str) (matched : Except Str Bool) :
 /-- go-nsq's struct-tag default -/
 theorem toFileMaxAttempts_lib_eq : Nsq.Gen.ToolsToFileFn.toFileMaxAttempts_lib = 5 := rfl
 
-/-- `main()` either leaves the library default (tree without fix F43: the open finding) or sets `cfg.MaxAttempts = 0`
-(fix F43); any other value is a change this check does not understand -/
-theorem toFileMaxAttempts_known :
-    Nsq.Gen.ToolsToFileFn.toFileMaxAttempts = 5 ∨ Nsq.Gen.ToolsToFileFn.toFileMaxAttempts = 0 := by decide
+/-- `main()` sets `cfg.MaxAttempts = 0` (fix F43, committed to /repo as 924c537). Until that commit this fact accepted
+the two shapes `5 ∨ 0`; now only the fixed shape is accepted (audit B12): on a tree without the fix this tie breaks
+*and* the replay of the fixed finding `gives-up-after-max-attempts` on the real binary reproduces (a VIOLATION with the
+concrete delivery). Any other value is a change this check does not understand. -/
+theorem toFileMaxAttempts_is_zero : Nsq.Gen.ToolsToFileFn.toFileMaxAttempts = 0 := by decide
 
 /-- the assignment (if any) happens before the operator's `--consumer-opt`s are applied -/
 theorem toFileMaxAttempts_overridable : Nsq.Gen.ToolsToFileFn.toFileMaxAttempts_overridable = true := rfl
